@@ -91,6 +91,12 @@ def main():
 
 
 OBSOLETE = {
+    'C15/D': 'does not apply since fix a4f3185 (the instruction extraction pattern was rewritten); ported by hand it is harmless: the order '
+             'of the mnemonic alternation no longer decides which text is extracted, the demo passes with the ported patch',
+    'C15/F': 'as C15/D: does not apply since fix a4f3185, and the ported change is harmless (alternation order no longer matters)',
+    'C18/D': 'does not apply: the comment splitting it changed was replaced by fix ef3fc9e (PATTERN_LINE_PARTS, quote aware)',
+    'C18/M': 'made harmless by fix b826d0d: numeric alternatives now refuse a register name in any letter case, so the order in which '
+             'the index alternatives are tried no longer matters; demo passes with the patch',
     'C08/A': 'made harmless by fix 028f92b: branch selection is now decided once by ConditionStack._decisions / evaluate_own, and no '
              'longer goes through the is_lineage_true recursion the change weakens; demo passes with the patch',
     'C14/A': 'made harmless by fix 83a5fb8: a value outside the range of its field is rejected before it reaches PackedBits, so the '
